@@ -233,34 +233,49 @@ Proof.
 Qed.
 
 (* ====================================================================================
-   THE RULE'S CUTOFF OVER THE LIFE OF A RULE OBJECT (hidden state outside the evaluator): the parser
-   and every Ruleset construction multiply the cutoff ATTRIBUTE of the rule object in place.
+   THE RULE'S CUTOFF THROUGH PARSER AND RULESET CONSTRUCTIONS (state outside the evaluator).  Finding
+   C01-H1 ruleset_rescales_shared_rules is REPAIRED: every Ruleset scales copies of the rule objects it
+   is given, from_files parses unscaled, copy_with_replacements starts again from the objects given.
    ==================================================================================== *)
 
-(* guard under which "the rule's cutoff" is what the rule text says, for every history of Ruleset
-   constructions over the object: all multipliers are 1 (every non-fungal run) *)
-Theorem C01_cutoff_unit_multipliers : forall kb ms, (forall m, In m ms -> m = (1, 1)) ->
-  cutoff_life kb (1, 1) ms = repeat (kb * 1000) (S (length ms)).
-Proof. exact cutoff_life_unit. Qed.
+(* "the rule's cutoff" is what the rule text says times the multiplier of the ruleset evaluating it - for
+   a ruleset built over the parsed rule and for every copy of it, of a copy of it, ..., with ANY
+   multipliers (before the repair this needed the guard: all multipliers are 1) *)
+Theorem C01_cutoff_unit_multipliers : forall kb m ms,
+  cutoff_life kb (1, 1) ((false, m) :: map (pair true) ms)
+  = kb * 1000 :: scale m (kb * 1000) :: map (fun m' => scale m' (kb * 1000)) ms.
+Proof. exact cutoff_life_copies. Qed.
 Print Assumptions C01_cutoff_unit_multipliers.
 
-(* without the guard the statement "a Ruleset with multiplier m evaluates its rules with cutoff
-   text * m" is false: Ruleset.from_files(multipliers=m) scales twice (finding C01-H1) ... *)
-Theorem C01_cutoff_scaled_once_refuted : exists kb m, 0 < fst m /\ 0 < snd m /\
-  last (cutoff_life kb m [m]) 0 <> scale m (kb * 1000).
-Proof. exact from_files_scales_twice. Qed.
-Print Assumptions C01_cutoff_scaled_once_refuted.
+(* Ruleset.from_files(multipliers=m) evaluates its rules with text * m, for every m (was refuted:
+   text * m * m) ... *)
+Theorem C01_cutoff_scaled_once : forall kb m, cutoff_life kb (1, 1) [(false, m)] = [kb * 1000; scale m (kb * 1000)].
+Proof. exact from_files_scales_once. Qed.
+Print Assumptions C01_cutoff_scaled_once.
 
-(* ... and so does every further Ruleset built over the same rule objects *)
-Theorem C01_cutoff_ruleset_copy_refuted : exists kb m, 0 < fst m /\ 0 < snd m /\
-  cutoff_life kb (1, 1) [m; m] <> [kb * 1000; scale m (kb * 1000); scale m (kb * 1000)].
-Proof. exact ruleset_copy_rescales. Qed.
-Print Assumptions C01_cutoff_ruleset_copy_refuted.
+(* ... a copy of a ruleset with the ruleset's own multiplier keeps its distances, after any sequence of
+   constructions (was refuted: the copy rescaled the shared objects) ... *)
+Theorem C01_cutoff_ruleset_copy : forall kb m0 pre k m,
+  cutoff_life kb m0 (pre ++ [(k, m); (true, m)])
+  = cutoff_life kb m0 (pre ++ [(k, m)]) ++ [last (cutoff_life kb m0 (pre ++ [(k, m)])) 0].
+Proof. exact ruleset_copy_keeps. Qed.
+Print Assumptions C01_cutoff_ruleset_copy.
+
+(* ... and a Ruleset built directly over the rule objects of another holder evaluates with the distances
+   of the objects it is given times its own multiplier (the other holder's own values appear unchanged in
+   the list: it keeps its objects) *)
+Theorem C01_cutoff_constructor_given : forall kb m0 pre m,
+  cutoff_life kb m0 (pre ++ [(false, m)]) = cutoff_life kb m0 pre ++ [scale m (last (cutoff_life kb m0 pre) 0)].
+Proof. exact cutoff_life_constructor. Qed.
+Print Assumptions C01_cutoff_constructor_given.
 
 (* hmm_detection.get_ruleset: parsed and wrapped with unit multipliers, then ONE
-   copy_with_replacements with the fungal multipliers - scaled once, as intended *)
+   copy_with_replacements with the fungal multipliers; the witnesses of the repaired finding: from_files
+   with 3/2 (was 22500), a ruleset with 3/2 and a copy with 3/2 (was 10000, 15000, 22500); the bare
+   constructor over the scaled objects of another ruleset scales what it is given *)
 Example C01_cutoff_hmm_detection_path :
-  cutoff_life 10 (1, 1) [(1, 1); (3, 2)] = [10000; 10000; 15000] /\
-  cutoff_life 10 (3, 2) [(3, 2)] = [15000; 22500] /\
-  cutoff_life 10 (1, 1) [(3, 2); (3, 2)] = [10000; 15000; 22500].
+  cutoff_life 10 (1, 1) [(false, (1, 1)); (true, (3, 2))] = [10000; 10000; 15000] /\
+  cutoff_life 10 (1, 1) [(false, (3, 2))] = [10000; 15000] /\
+  cutoff_life 10 (1, 1) [(false, (3, 2)); (true, (3, 2))] = [10000; 15000; 15000] /\
+  cutoff_life 10 (1, 1) [(false, (3, 2)); (false, (3, 2))] = [10000; 15000; 22500].
 Proof. repeat split; vm_compute; reflexivity. Qed.
